@@ -113,6 +113,7 @@ RULES = {
     'P3t': ('rules_extra', 'tag-bit constants are complementary, never-written slots carry the tag bit, tag test / pin re-check compare unmodified counts'),
     'P9g': ('rules_extra', 'into_single: clone before dropping the original, test the count after the drop'),
     'P15m': ('rules_extra', 'index arithmetic helpers keep their shape: mask = wrap-1, index = count & mask, new count = (count + by) & count mask, past / get_previous, refreshed tail = head - scan'),
+    'P13g': ('rules_extra2', 'a value of a crate type withheld from its destructor (forget / ManuallyDrop) has every owning field moved out or destroyed on the same path'),
     'P13e': ('rules_extra2', 'alloc / ToFree shapes: allocate = forgotten with_capacity(n); deallocate = from_raw_parts(p, 0, n); do_free drops num then deallocates num'),
     'P13f': ('rules_extra2', 'no buffer is sized from another buffer\'s capacity (capacities must not be inherited by replacement lists)'),
     'P12k': ('rules_extra2', 'token life cycle: created at the current epoch under the lock and registered; removed by retain(!=); announce -> unregister -> retire'),
@@ -141,9 +142,11 @@ PROPS = {
     'C02': DATAPATH,
     'C03': DATAPATH,
     'C04': DATAPATH + ['W14'],
-    'C05': DATAPATH + ['P13c', 'P13e', 'W14'],
+    'C05': DATAPATH + ['P13c', 'P13e', 'P13g', 'W14'],
     'C06': DATAPATH,
-    'C07': ['P3f', 'P6b', 'W6', 'P2e', 'P8', 'P7a', 'P7b', 'P7f', 'P7i', 'S3', 'O3'],
+    # ... and a futures Stream only learns of the last value / of the end when its parked task is woken: the stream
+    # side of the parking protocol belongs here as well
+    'C07': ['P3f', 'P6b', 'W6', 'P2e', 'P8', 'P7a', 'P7b', 'P7f', 'P7i', 'S3', 'O3', 'P2d', 'P7c', 'P7d', 'P7g', 'P7h', 'P7j', 'P11c', 'P11g'],
     'C08': ['P7a', 'P7b', 'P7f', 'P7h', 'P7i', 'P2d', 'P8', 'P6b', 'P6c', 'P6d'],
     'C09': ['P1a', 'P1b', 'P1h', 'P3f', 'P6b', 'P9b', 'P9c', 'P9f', 'P9g', 'P10a', 'P10b', 'P10e', 'P10h', 'P11a', 'P11b', 'P11c', 'S1', 'S3', 'W10', 'W13', 'P15i', 'C13map', 'P15', 'P15m', 'P15w', 'P7e', 'P7f'],
     'C10': ['P10a', 'P10b', 'P10c', 'P10d', 'P10f', 'P10g', 'P10h', 'P15', 'P15m', 'P15w', 'P3t', 'P5a', 'S5', 'W9'],
@@ -153,7 +156,7 @@ PROPS = {
     'C14': FUTURES,
     'C15': FUTURES + ['P7a', 'S3'],
     'C16': ['P6a', 'P12k', 'P13e', 'W9', 'W12', 'P12a', 'P12b', 'P12c', 'P12d', 'P12e', 'P12f', 'P12g', 'P12i', 'P13d', 'P10c', 'P10d', 'P10f', 'P9e'],
-    'C17': ['P6a', 'P12k', 'P13e', 'P13f', 'P12e', 'P12f', 'P12g', 'P12h', 'P12i', 'P13a', 'P13b', 'P13d', 'P9e', 'P10c', 'P10d'],
+    'C17': ['P6a', 'P12k', 'P13e', 'P13f', 'P13g', 'P12e', 'P12f', 'P12g', 'P12h', 'P12i', 'P13a', 'P13b', 'P13d', 'P9e', 'P10c', 'P10d'],
     'C18': ['P14', 'P14n'],
 }
 
